@@ -1,5 +1,5 @@
 """Names of the property theorems each check requires to be present in Props/<id>.v"""
-C01 = ['C01_rejected_candidates_have_no_influence', 'C01_filter_result_settled', 'C01_text_level', 'C01_tokenizer_compositional', 'C01_settled_lines', 'C01_prefilter_never_rejects', 'C01_main_diagonal', 'C01_range_survives_fusion_and_cut', 'C01_exact_copy_scores_one', 'C01_candidate_present', 'C01_reported_when_isolated']
+C01 = ['C01_candidate_survives', 'C01_survives_beside_or_on_last_line', 'C01_two_copies_on_one_line', 'C01_rejected_candidates_have_no_influence', 'C01_filter_result_settled', 'C01_text_level', 'C01_tokenizer_compositional', 'C01_settled_lines', 'C01_prefilter_never_rejects', 'C01_main_diagonal', 'C01_range_survives_fusion_and_cut', 'C01_exact_copy_scores_one', 'C01_candidate_present', 'C01_reported_when_isolated']
 C02 = ['C02_confidence_bound_any_valid_script', 'C02_distance_and_span_any_valid_script', 'C02_confidence_bound', 'C02_distance_and_span', 'C02_script_cost_bounds_levenshtein', 'C02_levenshtein_is_least_script_cost',
        'C02_trimming_removes_exactly_the_deleted_words', 'C02_confidence_antitone', 'C02_confidence_one_iff_zero_distance']
 C03 = ['C03_all_in_one', 'C03_sorted_by_confidence', 'C03_every_match_well_formed', 'C03_lines_ordered', 'C03_token_lines_bounded', 'C03_token_lines_sorted',
